@@ -244,6 +244,38 @@ fn run_c13(b: &[u8], t: Tier) -> Outcome {
     o
 }
 
+pub fn prof_c12(t: Tier) -> Profile {
+    let mut p = Profile::base("c12");
+    p.drop_state = true;
+    p.subscriptions = true;
+    p.handler_actions = true;
+    p.writers = true;
+    p.observer_churn = 2;
+    sized(p, t)
+}
+fn run_c12(b: &[u8], t: Tier) -> Outcome {
+    let mut r = run_case(&prof_c12(t), b, None);
+    // no drop order may disturb the values of what remains, and nothing may panic
+    for f in r.failures.iter_mut() {
+        match f.prop {
+            "C01" | "C03" => {
+                f.msg = format!("[{} {}] {}", f.prop, f.clause, f.msg);
+                f.prop = "C12";
+                f.clause = "remaining-graph-affected";
+            }
+            "C04" => {
+                f.msg = format!("[C04 panic] {}", f.msg);
+                f.prop = "C12";
+                f.clause = "drop-panicked";
+            }
+            _ => {}
+        }
+    }
+    let c = &r.classes;
+    let nt = c.handle_dropped_while_necessary > 0 && c.state_dropped_in_the_middle > 0 && c.nodes_released > 0;
+    outcome(r, nt)
+}
+
 const ENGINE_ASSUMPTIONS: &[&str] = &[
     "the reference model (harness/src/model.rs) and the from-scratch evaluator are trusted",
     "generated programs respect the documented rules (DESIGN.md 3.5): no use of a bind-created node while its bind is unnecessary, acyclic, one state, pure node functions",
@@ -269,7 +301,7 @@ macro_rules! engine_spec {
 }
 
 pub fn all_ids() -> Vec<&'static str> {
-    vec!["C01", "C02", "C03", "C04", "C05", "C06", "C07", "C08", "C09", "C10", "C11", "C13", "C14", "C15", "C16", "C17", "C18", "C19"]
+    vec!["C01", "C02", "C03", "C04", "C05", "C06", "C07", "C08", "C09", "C10", "C11", "C12", "C13", "C14", "C15", "C16", "C17", "C18", "C19", "C20"]
 }
 
 pub fn spec(id: &str) -> Option<PropSpec> {
@@ -449,6 +481,33 @@ pub fn spec(id: &str) -> Option<PropSpec> {
             ],
             both_builds_quick: true,
             abort_is_violation: true,
+        },
+        "C12" => PropSpec {
+            id: "C12",
+            level: "exploration",
+            rule: "cases = generated programs (binds returning their own input, self-map2, writer closures owning Var handles, handlers owning Var handles, exported bind-created nodes) whose histories drop node/var/observer handles at any point and end by dropping every remaining handle and the state in a drawn order interleaved with stabilises; every closure owns a clone of one canary Rc and every node is tracked by a WeakIncr; oracle = after each stabilise every node not reachable through strong references from the remaining handles/observers/closures (model) has strong_count 0, at the end no node and no closure is left, no drop panics (worker abort = violation), values of the remaining graph still equal the from-scratch evaluation; non-trivial = a handle was dropped while its node was still necessary, the state was dropped neither first nor last, and at least one unreachable node was seen released; distinct = distinct decoded action trace",
+            cases: [300_000, 8_000_000],
+            len: [220, 480],
+            run: run_c12,
+            exhaustive: None,
+            assumptions: &[
+                "strong-reference reachability is over-approximated by the model (inputs, a bind's current right-hand side, everything the closures of a top-level expression own), so only nodes that nothing can reach are required to be released",
+                "vars of vars and expert nodes are not part of this generator (expert nodes with dynamic dependencies are exercised by C14/C16 without leak accounting)",
+            ],
+            both_builds_quick: true,
+            abort_is_violation: true,
+        },
+        "C20" => PropSpec {
+            id: "C20",
+            level: "exploration",
+            rule: "cases = histories of memoised calls f(k), k in 0..5, from top level and from inside a (nested) bind closure whose key follows a variable, with returned nodes kept / dropped / observed, nodes obtained inside the closure exported and observed from outside, bind switches, outer bind re-runs, bind dropped, writes and stabilises; oracle = while the model is certain a reference exists the call returns the identical node and the function's call counter does not move; when it is certain none exists and a stabilise ran since, the counter moves by exactly one; no claim in between; observers on memoised nodes (also those obtained inside a bind) always return x + k; non-trivial = the same key was requested from inside the bind and from top level, with a bind re-run to another key in between; distinct = distinct decoded history",
+            cases: [300_000, 8_000_000],
+            len: [200, 480],
+            run: crate::c20::run_c20,
+            exhaustive: None,
+            assumptions: &["weak_memoize_fn itself is called at top level (its creation scope stays valid)", "reference certainty is tracked conservatively: dropped observers and exported clones count as uncertain until the next stabilise"],
+            both_builds_quick: false,
+            abort_is_violation: false,
         },
         _ => return None,
     })
